@@ -478,7 +478,7 @@ def coordwise_fit_ok(pat_pos, X, Rm, atol, slack_rel=1e-5):
     return bool((rng_ <= 2.0 * tol).all()), float(rng_.max() / 2.0)
 
 
-def symmetry_maps(els, P, tol=1e-6):
+def symmetry_maps(els, P, tol=1e-5):
     """All index permutations s with elements preserved for which a proper rotation maps P onto P[s] (pattern's proper
     symmetry group acting on atom indices).  Bounded: patterns <= 9 atoms."""
     P = np.asarray(P, float)
@@ -492,13 +492,13 @@ def symmetry_maps(els, P, tol=1e-6):
         i = len(perm)
         if i == n:
             R, t, dev = kabsch(P, P[list(perm)])
-            if dev.max() < 1e-5:
+            if dev.max() < tol:
                 out.append(tuple(perm))
             return
         for c in range(n):
             if c in perm or els[c] != els[i]:
                 continue
-            if all(abs(pd[i, j] - pd[c, perm[j]]) < 1e-5 for j in range(i)):
+            if all(abs(pd[i, j] - pd[c, perm[j]]) < 2 * tol for j in range(i)):
                 rec(perm + [c])
     rec([])
     return out or [tuple(range(n))]
